@@ -48,15 +48,75 @@ def check(prog, run):
         run.ob("O-hom", fn.qual, "all-operations", True, "only the stated mean over setups mixes gains")
     run.trusted |= set(CTX.used)
     params(prog, run)
-    grid(prog, run)
-    try:
-        from .. import seqsig
-    except ImportError:
-        seqsig = None
-    if seqsig:
-        run.rule("R-order", "row order of the merged matrix: reference rows, then each setup's roving rows in setup order; column split "
-                 "[:n_ref] / [n_ref:] matches the hstack((ref, mov)) order", 1)
-        seqsig.order_obligations(prog, run, "R-order", which=("sd_preger",))
+    blocks(prog, run)
+
+
+WANT_ROWS = "(ref ; for k0 in 0..N: (mov[k0]))"
+WANT_COLS = "(ref)"
+WANT_FORM = "[mean_k0(S[k0]<ref|ref>) ; for k0 in 0..N: S[k0]<mov|ref> . S[k0]<ref|ref>^-1 . mean_k1(S[k1]<ref|ref>)]"
+
+
+def blocks(prog, run):
+    """R-grid / R-order by channel-group typing of every matrix in SD_PreGER (sa/blockdom.py): what the rows and columns of the
+    returned matrix are, and from which raw spectral blocks each row block was computed - for any way of writing the loops."""
+    from .. import blockdom, seqdom
+    run.rule("R-order", "typed block structure of the merged matrix: rows = [reference sensors ; each setup's roving sensors in setup order], columns = reference "
+             "sensors; each roving block = S_mov,ref . inv(S_ref,ref) of its own setup . mean over setups of S_ref,ref; no product / stack of mismatching channel groups", 6)
+    pre = prog.func(FN)
+    f = rel(prog.mods[pre.mod].path)
+    pos = astq.params_of(pre.node)[0]
+    for meth in ("per", "cor"):
+        cfg = f"method={meth}"
+        it = blockdom.Interp(prog, roles={pos[0]: ("setups",)})
+        rets = it.run(pre, {"method": seqdom.K(meth)})
+
+        def ob(rule, role, ok, detail, node=None):
+            run.ob(rule, pre.qual, role, ok, detail, witness=detail[:120], file=f, node=node, config=cfg)
+        tups = [(v, n) for v, n in rets if isinstance(v, seqdom.Tup) and len(v.items) == 2]
+        if not tups:
+            ob("R-grid", "freq", None, "SD_PreGER does not return a (freq, Sy) pair on this path")
+            continue
+        for v, n in tups:
+            fr, sy = v.items
+            if isinstance(fr, blockdom.Freq):
+                ob("R-grid", "freq", True, "freq is element 0 of the estimator's return", n)
+            else:
+                txt = astq.src(fr.node, 80) if isinstance(fr, seqdom.E) else repr(fr)[:80]
+                rebuilt = isinstance(fr, seqdom.E) and any(isinstance(c, ast.Call) and astq.src(c.func).split(".")[-1] in ("arange", "linspace", "rfftfreq", "fftfreq") for c in ast.walk(fr.node))
+                if isinstance(fr, seqdom.Sq) and any(x[0] == "int" for x in seqdom.walk(fr.t)):
+                    rebuilt = True        # an index ramp (arange / range) scaled by something: a grid built by hand
+                ob("R-grid", "freq", False if rebuilt or isinstance(fr, (blockdom.Mat, seqdom.I)) else None, f"returned frequency vector is `{txt}`, not the grid returned by the estimator", n)
+            if not isinstance(sy, blockdom.Mat):
+                ob("R-order", "merged matrix", None, f"returned matrix not typed: {repr(sy)[:120]}", n)
+                continue
+            opq = blockdom.fopaque(sy.form)
+            rows, cols, form = blockdom.gcanon(sy.rows), blockdom.gcanon(sy.cols), blockdom.fshow(sy.form)
+            ob("R-order", "rows = [reference sensors ; roving sensors of every setup in setup order]", rows == WANT_ROWS, f"rows {rows}", n)
+            ob("R-order", "columns = reference sensors", cols == WANT_COLS, f"columns {cols}", n)
+            okf = (form == WANT_FORM) if not opq else None
+            ob("R-order", "row blocks = [mean_k S_ref,ref(k) ; S_mov,ref(k) . inv(S_ref,ref(k)) . mean_k S_ref,ref(k)]", okf,
+               f"{form}" + (f"  (not fully recognised: {opq[0]})" if opq else "") + ("" if okf or opq else "  (the spectral blocks are Hermitian, not symmetric: order, inverse and transposition matter)"), n)
+        # the per-setup records handed to the estimator: all channels [ref ; mov] against [ref] and [mov]
+        est_calls = [c for c in it.calls if c[0].endswith(".SD_est")]
+        if not est_calls:
+            ob("R-order", "per-setup record stack = [reference channels ; roving channels]", None, "no estimator call reached")
+        seen = set()
+        for q, bound, node, loops in est_calls:
+            vals = list(bound.values())
+            if len(vals) < 2 or not all(isinstance(x, blockdom.Rec) for x in vals[:2]):
+                ob("R-order", "per-setup record stack = [reference channels ; roving channels]", None, f"estimator operands of `{astq.src(node, 60)}` not typed", node)
+                continue
+            a, b = vals[0], vals[1]
+            key = (tuple(x[1] for x in a.groups), tuple(x[1] for x in b.groups))
+            if key in seen:
+                continue
+            seen.add(key)
+            ob("R-order", "per-setup record stack = [reference channels ; roving channels]", key[0] == ("ref", "mov"),
+               f"estimator rows {blockdom.gshow(a.groups)} against columns {blockdom.gshow(b.groups)}", node)
+        for node, msg in it.type_errors:
+            ob("R-order", "channel groups agree in every product / stack / slice", False, msg, node)
+        if not it.type_errors:
+            ob("R-order", "channel groups agree in every product / stack / slice", True, "no typing conflict")
 
 
 def _is_param(fi, e, name):
@@ -153,33 +213,6 @@ def params(prog, run):
             x = astq.expand(rf, a) if a is not None else None
             ok = x is not None and astq.src(x) == "self.fs"
             run.ob("R-param", rf.qual, "self.fs->SD_PreGER.fs", ok, f"`{astq.src(x) if x is not None else None}`", witness=astq.src(x, 60) if x is not None else "missing", file=fr, node=c)
-
-
-def grid(prog, run):
-    pre = prog.func(FN)
-    est = prog.func(EST)
-    f = rel(prog.mods[pre.mod].path)
-    rets = [n for n in ast.walk(pre.node) if isinstance(n, ast.Return) and n.value is not None]
-    amap = astq.assignments(pre)
-    for r in rets:
-        v = r.value
-        first = v.elts[0] if isinstance(v, ast.Tuple) and v.elts else None
-        if not isinstance(first, ast.Name):
-            run.ob("R-grid", pre.qual, "freq", None, f"returned `{astq.src(v)}`: first element is not a plain variable", file=f, node=r)
-            continue
-        ok = True
-        why = []
-        ents = amap.get(first.id, [])
-        if not ents:
-            ok = False
-        for st, val in ents:
-            if not (isinstance(st, ast.Assign) and isinstance(st.value, ast.Call) and isinstance(prog.resolve_call(pre, st.value), FuncInfo)
-                    and prog.resolve_call(pre, st.value).qual == est.qual and isinstance(st.targets[0], ast.Tuple)
-                    and isinstance(st.targets[0].elts[0], ast.Name) and st.targets[0].elts[0].id == first.id):
-                ok = False
-                why.append(astq.src(st, 60))
-        run.ob("R-grid", pre.qual, "freq", ok, "freq is element 0 of SD_est's return on every assignment" if ok else
-               f"freq is also assigned from `{'; '.join(why)}`", witness="; ".join(why)[:100], file=f, node=r)
 
 
 FD = "functions.fdd"
